@@ -77,8 +77,8 @@ def decSep (j : Json) : R Sep := do pure ⟨← gapAt j 0, ← boolAt j 1, ← g
 def decPVal (j : Json) : R PVal := do
   match (← strAt j 0) with
   | "nums" => pure (.nums (← entriesAt j 1))
-  | "numsParen" => pure (.numsParen (← entriesAt j 1) (← entriesAt j 2) (← gapAt j 3))
-  | "paren" => pure (.paren (← entriesAt j 1) (← gapAt j 2))
+  | "numsParen" => pure (.numsParen (← entriesAt j 1) (← gapAt j 2) (← entriesAt j 3) (← gapAt j 4))
+  | "paren" => pure (.paren (← gapAt j 1) (← entriesAt j 2) (← gapAt j 3))
   | "lattice" => pure (.lattice (← numAt j 1) (← numAt j 2) (← gapAt j 3) (← numAt j 4) (← numAt j 5) (← gapAt j 6)
       (← numAt j 7) (← numAt j 8) (← gapAt j 9) (← entriesAt j 10))
   | o => throw s!"bad pval {o}"
@@ -166,7 +166,7 @@ def runCase (j : Json) : R Json := do
     pure (specAnswer d.WF d.interpEndNonzero d.render d.classes)
   | "dispatch_cell" =>
     let ps ← (← j.getObjVal? "params").getArr?
-    let ps ← ps.toList.mapM (fun p => do pure (Param.mk (← strAt p 0) (← strAt p 1)))
+    let ps ← ps.toList.mapM (fun p => do pure (Param.mk (← strAt p 0) (← strAt p 1) (← strAt p 2)))
     match parseKeywordModifiers ps with
     | none => pure (Json.mkObj [("err", "RedundantParameterSpecification")])
     | some s => pure (Json.mkObj [("set", toJson s.set), ("merged", toJson s.merged), ("dropped", toJson s.dropped),
@@ -190,7 +190,16 @@ def runCase (j : Json) : R Json := do
   | "lex" =>
     let w ← fStr j "word"
     match (← fStr j "lexer") with
-    | "particle" => pure (toJson (particleLexerText w))
+    | "particle" =>
+      let ctx := match j.getObjVal? "ctx" with | .ok v => v.getStr?.toOption.getD "plain" | .error _ => "plain"
+      let ex := match ctx with
+        | "colon" => expectsParticle (some ':') (some "imp") "imp:"
+        | "comma" => expectsParticle (some ',') (some "imp:n") "imp:n,"
+        | "mode" => expectsParticle (some ' ') (some "mode") "mode"
+        | "par" => expectsParticle (some '=') (some "sdef") "sdef par"
+        | "spar" => expectsParticle (some '=') (some "sdef") "sdef spar"
+        | _ => expectsParticle (some ' ') (some "nps") "nps 1"
+      pure (toJson (particleLexerText ex w))
     | "surface" => pure (toJson (surfaceLexerText w))
     | o => throw s!"bad lexer {o}"
   | o => throw s!"unknown op {o}"
